@@ -18,7 +18,8 @@ PROP = "C10"
 COQ = dict(imports=["Model.Batch", "Spec.C10"], in_ty="input10", out_ty="output10",
            corr="corr_C10", decide="check_C10", model="model10")
 THEOREMS = ["C10_decider_sound", "C10_schema", "C10_rows", "C10_untouched", "C10_no_temp",
-            "C10_constraint_by_new_name_refuted", "C10_readd_last_column_refuted", "C10_added_column_order_refuted"]
+            "C10_constraint_by_new_name_refuted", "C10_readd_last_column_refuted", "C10_rename_back_refuted",
+            "C10_added_column_order_refuted"]
 TRUSTED = [
     "sqlalchemy.util.topological.sort (SQLAlchemy's, used for column ordering): transcribed as sa_tsort for the correspondence; "
     "the theorems that involve it take it as a Section variable",
@@ -28,14 +29,18 @@ TRUSTED = [
     "SQLAlchemy _type_affinity of the catalogue types (INTEGER,BIGINT | TEXT,VARCHAR | NUMERIC) as used by SQLiteImpl.cast_for_batch_migrate",
     "the statement sequence of _create itself is C11's model (Model/BatchFail.v); C10_no_temp is proved there",
 ]
-ASSUME = ["tables are reflected (the default); copy_from, partial_reordering, naming conventions, Boolean/Enum type-bound constraints, "
-          "computed/identity columns, comments and recreate='auto' on the ALTER path are outside the model",
+ASSUME = ["partial_reordering, naming conventions, Boolean/Enum type-bound constraints, computed/identity columns and comments are outside the model; "
+          "copy_from is driven with a Table object equal to the reflected one (same model); recreate='auto' is modelled "
+          "(requires_recreate / CommandError for insert_before/after / the ALTER path direct_ops) and compared, but outside the refinement theorems",
           "existing rows satisfy the constraints the batch adds (violations are C11's subject)"]
-RULE = ("table t = id INTEGER PRIMARY KEY + 2-5 columns over {INTEGER,BIGINT,TEXT,VARCHAR(20),NUMERIC(10,2)} with nullability/defaults, "
+RULE = ("table t = id INTEGER + 2-5 columns over {INTEGER,BIGINT,TEXT,VARCHAR(20),NUMERIC(10,2)} with nullability/defaults, "
+        "primary key (id) or an unnamed COMPOSITE primary key over two columns mostly declared against the column order, "
         "optional named UNIQUE / CHECK / FK to p / self-referential FK, 0-2 indexes; 0-4 rows (NULLs, quotes, unicode, 2^40, numeric-looking text); "
         "1-5 batch operations drawn from add_column (plain, insert_before/insert_after, rarely an existing name), drop_column (also columns under "
-        "constraints / indexes / the PK), alter_column (rename, type, nullable, default), create unique/check/foreign key (also by a column's NEW name "
-        "after a rename), drop_constraint, create_index, drop_index (also of a missing / just created one); hand-written sequences first. "
+        "constraints / indexes / the PK), alter_column (rename, type, nullable, default - singly and several attributes in one call), create unique/check/foreign key (also by a column's NEW name "
+        "after a rename), drop_constraint, create_index, drop_index (also of a missing / just created one); hand-written sequences first; "
+        "30% of the random scenarios use recreate='auto' (60% of those restricted to add_column/create_index/drop_index so that the ALTER path is taken), "
+        "25% pass copy_from. "
         "non-trivial = accepted by Alembic (no exception) with at least one row; distinct by encoded input")
 EXHAUSTIVE = {"quick": False, "thorough": False}
 CASE_TIMEOUT = 60
@@ -55,6 +60,7 @@ TMPP = "_alembic_tmp_"
 FINDINGS = {
     "byname": "C10-constraint-on-unknown-or-renamed-column-silently-dropped",
     "readd": "C10-add-existing-last-column-loses-its-data",
+    "renameback": "C10-rename-back-to-original-name-ignored",
 }
 
 
@@ -102,6 +108,27 @@ def fixed():
     yield s([["alter", "a", {"name": "a2"}], ["alter", "a", {"name": "a3"}]])
     yield s([["alter", "a", {"name": "a2"}], ["alter", "a2", {"name": "a3"}]])           # KeyError
     yield s([["alter", "c", {"default": None}]], cols=[["a", 0, True, None], ["b", 2, True, None], ["c", 0, True, "7"]])
+    cpk = dict(cols=[["a", 0, False, None], ["b", 2, False, None], ["c", 0, True, None]], pk=["b", "a"], rows=[[1, 1, "x", 1], [2, 5, "y", 2]])
+    yield s([["add_unique", "uq_x", ["id"]]], **cpk)                                    # PK (b, a) declared against column order, untouched
+    yield s([["add_check", "ck_x", "1 = 1"]], **cpk)
+    yield s([["add_fk", "fk_x", ["c"], "p", ["id"]], ["drop_con", "uq_c", "unique"]], **cpk)
+    yield s([["alter", "a", {"name": "a2"}], ["create_index", "ix_c", ["c"], False]], **cpk)
+    yield s([["drop", "a"]], **cpk)
+    yield s([["alter", "c", {"nullable": False, "default": "3"}]], rows=[[1, 1, "x", 1], [2, 5, "y", 2]])
+    yield s([["alter", "c", {"nullable": True, "default": "3"}]])
+    yield s([["alter", "a", {"nullable": True, "default": None}]], cols=[["a", 0, False, "7"], ["b", 2, True, None], ["c", 0, True, None]], rows=[[1, 1, "x", 1]])
+    yield s([["alter", "a", {"type": 2, "nullable": True, "default": "q"}]])
+    yield s([["alter", "a", {"name": "a9", "default": "4", "nullable": True}]])
+    yield s([["add", "z", 0, True, "7", None, None], ["create_index", "ix_z", ["z", "a"], False], ["drop_index", "ix_b"]], mode="auto")
+    yield s([["add", "z", 0, True, None, "a", None]], mode="auto")                     # CommandError
+    yield s([["drop", "a"], ["add", "z", 0, True, None, "b", None]], mode="auto")       # recreate already needed: accepted
+    yield s([["add", "z", 0, True, None, "b", None], ["drop", "a"]], mode="auto")       # CommandError (decided on the ops so far)
+    yield s([["add", "z", 0, False, None, None, None]], mode="auto")                   # NOT NULL without default: OperationalError
+    yield s([["create_index", "ixn", ["a"], False], ["drop_index", "ixn"]], mode="auto")
+    yield s([["add", "c", 2, True, None, None, None]], mode="auto")                    # duplicate column: OperationalError
+    yield s([["alter", "a", {"name": "a2"}], ["drop_con", "uq_c", "unique"]], mode="auto", copy_from=True)
+    yield s([["alter", "b", {"type": 0}], ["add_unique", "uq_a", ["a"]]], copy_from=True)
+    yield s([["add_check", "ck_x", "1 = 1"]], copy_from=True, **cpk)
 
 
 def rand_scenario(rnd):
@@ -123,6 +150,14 @@ def rand_scenario(rnd):
                 row.append(r * 3 + 2)
         rows.append(row)
     uniques, checks, fks, indexes = [], [], [], []
+    pk = ["id"]
+    if len(names) >= 2 and rnd.random() < 0.35:
+        # unnamed composite primary key, mostly declared in an order that differs from the column order
+        pkc = sorted(rnd.sample(range(len(names)), 2))
+        if all(r[1 + j] is not None for r in rows for j in pkc):
+            pk = [names[pkc[1]], names[pkc[0]]] if rnd.random() < 0.75 else [names[pkc[0]], names[pkc[1]]]
+            for j in pkc:
+                cols[j][2] = False
     if rnd.random() < 0.5:
         uniques.append(["uq1", rnd.sample(names, rnd.randint(1, min(2, len(names))))])
     if rnd.random() < 0.35:
@@ -134,18 +169,20 @@ def rand_scenario(rnd):
         fks.append(["fk_self", [rnd.choice(names)], "t", ["id"]])
     for k in range(rnd.randint(0, 2)):
         indexes.append(["ix%d" % k, rnd.sample(names, rnd.randint(1, min(2, len(names)))), rnd.random() < 0.2])
-    scn = dict(cols=cols, uniques=uniques, checks=checks, fks=fks, indexes=indexes, rows=rows, ops=[])
-    gen_ops(rnd, scn)
+    scn = dict(cols=cols, uniques=uniques, checks=checks, fks=fks, indexes=indexes, rows=rows, ops=[], pk=pk,
+               mode=("auto" if rnd.random() < 0.3 else "always"), copy_from=rnd.random() < 0.25)
+    gen_ops(rnd, scn, light=(scn["mode"] == "auto" and rnd.random() < 0.6))
     return scn
 
 
-def gen_ops(rnd, scn):
+def gen_ops(rnd, scn, light=False):
     cols = {c[0]: c for c in scn["cols"]}
     cols["id"] = ["id", 0, False, None]
     keys = ["id"] + [c[0] for c in scn["cols"]]          # live keys
     curname = {k: k for k in keys}
     check_cols = {c[2] for c in scn["checks"]}
-    uniq_cols = {x for u in scn["uniques"] for x in u[1]} | {x for i in scn["indexes"] if i[2] for x in i[1]}
+    pkcols = list(scn.get("pk", ["id"]))
+    uniq_cols = set(pkcols) | {x for u in scn["uniques"] for x in u[1]} | {x for i in scn["indexes"] if i[2] for x in i[1]}
     idx_cols = {x for i in scn["indexes"] for x in i[1]}
     con_names = [u[0] for u in scn["uniques"]] + [c[0] for c in scn["checks"]] + [f[0] for f in scn["fks"]]
     con_kind = {u[0]: "unique" for u in scn["uniques"]}
@@ -158,8 +195,10 @@ def gen_ops(rnd, scn):
     uniq_sets = {u[1][0] for u in scn["uniques"] if len(u[1]) == 1}
     ops = []
     for _ in range(rnd.randint(1, 5)):
-        kind = rnd.choice(["add", "add", "drop", "drop", "rename", "rename", "type", "nullable", "default", "add_unique", "add_unique",
+        kind = rnd.choice(["add", "add", "drop", "drop", "rename", "rename", "type", "nullable", "default", "multi", "multi", "multi", "add_unique", "add_unique",
                            "add_check", "add_fk", "drop_con", "create_index", "create_index", "drop_index", "weird"])
+        if light:            # only what SQLite can do with ALTER: the batch is not recreated under recreate='auto'
+            kind = rnd.choice(["add", "add", "create_index", "drop_index", "drop_index", "weird"])
         live = [k for k in keys if k not in added]
         if kind == "add":
             nm = "z%d" % len(ops)
@@ -177,7 +216,7 @@ def gen_ops(rnd, scn):
             if rnd.random() < 0.8:
                 cand = [k for k in cand if k not in idx_cols]
             if rnd.random() < 0.7:
-                cand = [k for k in cand if k != "id"]
+                cand = [k for k in cand if k not in pkcols]
             if cand and len(keys) > 1:
                 k = rnd.choice(cand); ops.append(["drop", k]); keys.remove(k)
         elif kind == "rename" and keys:
@@ -187,13 +226,32 @@ def gen_ops(rnd, scn):
                 nn = k + "_r%d" % len(ops) if rnd.random() < 0.95 else rnd.choice(keys)
                 ops.append(["alter", k, {"name": nn}]); curname[k] = nn
         elif kind == "type" and live:
-            cand = [k for k in live if k not in typed and k not in uniq_cols and k != "id" and k not in check_cols]
+            cand = [k for k in live if k not in typed and k not in uniq_cols and k not in pkcols and k not in check_cols]
             if cand:
                 k = rnd.choice(cand); typed.add(k)
                 ops.append(["alter", k, {"type": rnd.randrange(5)}])
+        elif kind == "multi" and keys:
+            # one alter_column call changing several attributes at once, as autogenerate renders it
+            k = rnd.choice(keys)
+            a = {}
+            want = rnd.sample(["name", "type", "nullable", "default"], rnd.randint(2, 4))
+            if "name" in want and k not in check_cols:
+                a["name"] = k + "_m%d" % len(ops); curname[k] = a["name"]
+            if "type" in want and k in live and k not in typed and k not in uniq_cols and k not in pkcols and k not in check_cols:
+                a["type"] = rnd.randrange(5); typed.add(k)
+            if "nullable" in want:
+                a["nullable"] = True if (k in added or not nullfree(k)) else (rnd.random() < 0.5)
+                if k in pkcols:
+                    a["nullable"] = False
+            if "default" in want:
+                a["default"] = rnd.choice(["9", "dd"] if k in added else [None, "9", "dd"])
+            if a:
+                ops.append(["alter", k, a])
         elif kind == "nullable" and keys:
             k = rnd.choice(keys)
-            if k in added:
+            if k in pkcols:
+                ops.append(["alter", k, {"nullable": False}])
+            elif k in added:
                 ops.append(["alter", k, {"nullable": True}])
             elif nullfree(k):
                 ops.append(["alter", k, {"nullable": rnd.random() < 0.5}])
@@ -204,7 +262,7 @@ def gen_ops(rnd, scn):
             ops.append(["alter", k, {"default": rnd.choice(["9", "dd"] if k in added else [None, "9", "dd"])}])
         elif kind == "add_unique" and live:
             k = rnd.choice([x for x in live if x not in typed] or live)
-            if k in typed or k == "id" or k in uniq_sets:
+            if k in typed or pkcols == [k] or k in uniq_sets:
                 continue
             uniq_cols.add(k); uniq_sets.add(k)
             ref = curname[k] if (curname[k] != k and rnd.random() < 0.5) else k       # sometimes by the NEW name
@@ -228,7 +286,7 @@ def gen_ops(rnd, scn):
                 idx_names.remove(n)
         elif kind == "weird":
             r = rnd.random()
-            if r < 0.3 and keys:
+            if r < 0.3 and keys and keys[-1] not in uniq_cols:
                 ops.append(["add", keys[-1], rnd.randrange(5), True, None, None, None])       # re-add the last column
                 if keys[-1] not in added:
                     added.append(keys[-1])
@@ -338,7 +396,7 @@ def opc(o, tok):
     raise ValueError(o)
 
 
-ERR = {"KeyError": "EKeyError", "ValueError": "EValueError", "CircularDependencyError": "ECircular",
+ERR = {"CommandError": "ECommandB", "KeyError": "EKeyError", "ValueError": "EValueError", "CircularDependencyError": "ECircular",
        "DuplicateColumnError": "EDuplicateColumn", "OperationalError": "EOperationalB"}
 
 
@@ -352,6 +410,7 @@ def run_case(scn):
     import sqlalchemy as sa
     from alembic.operations import Operations
     from alembic.runtime.migration import MigrationContext
+    from alembic.util import CommandError
 
     toks = []
 
@@ -398,20 +457,25 @@ def run_case(scn):
     try:
         path = os.path.join(td, "db.sqlite")
         e = sa.create_engine("sqlite:///" + path)
-        m = sa.MetaData()
-        sa.Table("p", m, sa.Column("id", sa.Integer, primary_key=True))
-        args = [sa.Column("id", sa.Integer, primary_key=True)]
-        for (n, t, nl, df) in scn["cols"]:
-            args.append(sa.Column(n, sa_type(sa, t), nullable=nl, server_default=df))
-        for (n, cs) in scn["uniques"]:
-            args.append(sa.UniqueConstraint(*cs, name=n))
-        for c in scn["checks"]:
-            args.append(sa.CheckConstraint(c[1], name=c[0]))
-        for (n, cs, rt, rc) in scn["fks"]:
-            args.append(sa.ForeignKeyConstraint(list(cs), ["%s.%s" % (rt, x) for x in rc], name=n))
-        t = sa.Table("t", m, *args)
-        for (n, cs, u) in scn["indexes"]:
-            sa.Index(n, *[t.c[x] for x in cs], unique=u)
+        def mk_table():
+            m = sa.MetaData()
+            sa.Table("p", m, sa.Column("id", sa.Integer, primary_key=True))
+            pk = list(scn.get("pk", ["id"]))
+            args = [sa.Column("id", sa.Integer, nullable=False)]
+            for (n, t_, nl, df) in scn["cols"]:
+                args.append(sa.Column(n, sa_type(sa, t_), nullable=nl, server_default=df))
+            args.append(sa.PrimaryKeyConstraint(*pk))        # unnamed, in declared order
+            for (n, cs) in scn["uniques"]:
+                args.append(sa.UniqueConstraint(*cs, name=n))
+            for c in scn["checks"]:
+                args.append(sa.CheckConstraint(c[1], name=c[0]))
+            for (n, cs, rt, rc) in scn["fks"]:
+                args.append(sa.ForeignKeyConstraint(list(cs), ["%s.%s" % (rt, x) for x in rc], name=n))
+            tt = sa.Table("t", m, *args)
+            for (n, cs, u) in scn["indexes"]:
+                sa.Index(n, *[tt.c[x] for x in cs], unique=u)
+            return m, tt
+        m, t = mk_table()
         m.create_all(e)
         colnames = ["id"] + [c[0] for c in scn["cols"]]
         with e.begin() as c:
@@ -445,7 +509,10 @@ def run_case(scn):
         try:
             with e.begin() as c:
                 op = Operations(MigrationContext.configure(c))
-                with op.batch_alter_table("t", recreate="always") as b:
+                bkw = {}
+                if scn.get("copy_from"):
+                    bkw["copy_from"] = mk_table()[1]          # a complete Table object instead of reflection
+                with op.batch_alter_table("t", recreate=scn.get("mode", "always"), **bkw) as b:
                     for o in scn["ops"]:
                         k = o[0]
                         if k == "add":
@@ -483,6 +550,8 @@ def run_case(scn):
                             b.drop_index(o[1])
                         else:
                             raise RuntimeError("bad op %r" % (o,))
+        except CommandError:
+            err = "CommandError"
         except (KeyError, ValueError) as x:
             err = type(x).__name__
         except sa.exc.CircularDependencyError:
@@ -506,17 +575,18 @@ def run_case(scn):
         shutil.rmtree(td, ignore_errors=True)
 
     # check texts of added checks must be interned too, before encoding the ops
-    cin = "(mkIn10 %s %s %s %s %s)" % (
+    cin = "(mkIn10 %s %s %s %s %s %s)" % (
         tblc(before), rowsc(rows_before), cf.lst(opc(o, tok) for o in scn["ops"]),
         cf.lst("(%d, %s, %s)" % (t_, val(a), val(b_)) for (t_, a, b_) in casts),
-        cf.lst("(%s, %s)" % (cf.string(n), val(v)) for (n, v) in dflts))
+        cf.lst("(%s, %s)" % (cf.string(n), val(v)) for (n, v) in dflts), cf.boolean(scn.get("mode", "always") == "always"))
     if err is None:
         cout = "(OutOk %s %s %s)" % (descc(after), rowsc(rows_after), cf.boolean(tmp_left))
         out = dict(ok=dict(desc=after, rows=rows_after, tmp_left=tmp_left))
     else:
         cout = "(OutErr %s)" % ERR.get(err, "EOtherB")
         out = dict(err=err)
-    shape = ("ok" if err is None else err.split(":")[-1]) + "-n%d" % len(scn["ops"])
+    shape = ("ok" if err is None else err.split(":")[-1]) + "-n%d" % len(scn["ops"]) + ("-auto" if scn.get("mode") == "auto" else "") + \
+        ("-copyfrom" if scn.get("copy_from") else "")
     return dict(cin=cin, cout=cout, out=out, nontrivial=bool(err is None and rows_before), shape=shape)
 
 
@@ -528,8 +598,11 @@ def classify(scn, out):
     readd = False
     byname = False
     live = ["id"] + [c[0] for c in scn["cols"]]
+    renameback = False
     for o in scn["ops"]:
         if o[0] == "alter" and "name" in o[2] and o[1] in live:
+            if o[2]["name"] == o[1] and cur.get(o[1], o[1]) != o[1]:
+                renameback = True          # alter_column(k, new_column_name=k) after k was renamed: ignored by the code
             cur[o[1]] = o[2]["name"]
         elif o[0] == "add":
             if o[1] in live:
@@ -543,6 +616,8 @@ def classify(scn, out):
                 byname = True
     if readd:
         return FINDINGS["readd"]
+    if renameback:
+        return FINDINGS["renameback"]
     if byname:
         return FINDINGS["byname"]
     return None
